@@ -29,3 +29,7 @@ def _wrap(t, key, mod):
         eng.assumptions_used |= e3.assumptions_used
         eng.bounded_used = getattr(eng, "bounded_used", []) + list(getattr(e3, "bounded_used", []))
     return Target(t.name, "contract", run, functions=t.functions)
+
+
+# built-in mutants of the real source text for the thorough tier's self-check (each must be refuted by a named obligation)
+MUTANTS = [('gatt-filter-ignores-handle', 'aioesphomeapi/client_callbacks.py', '    if address == msg.address and handle == msg.handle:', '    if address == msg.address:')]
